@@ -35,9 +35,15 @@ COMPONENTS = dict(c01.COMPONENTS, real=c01.COMPONENTS["real"] + [
 SUP = "_sup"
 
 
+NAME_SCHEMES = (("0", "1", "2", "3"), ("0", "1", "2", "3"), ("8", "9", "10", "11"), ("r2", "r10", "r1", "r03"),
+                ("b", "a", "d", "c"))
+
+
 def gen(seed, tier):
     r = rng_for(seed, "workload")
     n_runs = r.choice([1, 2, 2, 3, 3, 4])
+    # run ids whose lexical order is not their start order, half of the time
+    names = r.choice(NAME_SCHEMES)[:n_runs]
     runs = {}
     t0 = r.choice([0, 3, 1000])
     for i in range(n_runs):
@@ -48,18 +54,32 @@ def gen(seed, tier):
             e = s + 1
         rows = [x for x in rows if x[0] >= s]
         # C14's quantifier does not include zero-duration chunks (C01/C08 cover those): keep bounds distinct
-        runs[str(i)] = {"rows": rows, "bounds": sorted(set(G.gen_bounds(r, rows, s, e, max_chunks=4,
-                                                                        zero_dur_p=0.0)))}
+        runs[names[i]] = {"rows": rows, "bounds": sorted(set(G.gen_bounds(r, rows, s, e, max_chunks=4,
+                                                                            zero_dur_p=0.0)))}
         t0 = e + r.choice([0, 1, 5000, 2_000_000_000])
+    first = names[0]
     depth = r.randint(1, 3)
     level = r.randint(0, depth - 1)
-    nodes = [{"name": "sa", "kind": "source", "rows": runs["0"]["rows"], "bounds": runs["0"]["bounds"],
+    nodes = [{"name": "sa", "kind": "source", "rows": runs[first]["rows"], "bounds": runs[first]["bounds"],
               "runs": runs, "opts": {"save_when": "ALWAYS", "rechunk_on_save": False}}]
     prev = "sa"
+    # the first superrun-capable plugin may sit on TWO data types that are not superrun-capable
+    two_inputs = r.random() < 0.3
     for i in range(depth):
         kind = r.choice(["rowmap", "rowmap", "filter"])
-        n = {"name": f"n{i}", "kind": kind, "dep": prev}
-        n.update({"a": r.choice([1, 2, 3]), "b": i} if kind == "rowmap" else {"m": 3, "r": r.randrange(3)})
+        if two_inputs and i == level:
+            aux = {"name": "aux", "kind": "rowmap", "dep": "sa", "a": 2, "b": 7,
+                   "opts": {"save_when": "ALWAYS", "rechunk_on_save": r.random() < 0.5, "target_mb": 200,
+                            "allow_superrun": False}}
+            if P.kinds_of({"nodes": nodes})[prev] == "k_sa":     # same kind, row aligned with the source
+                nodes.append(aux)
+                n = {"name": f"n{i}", "kind": "merge2", "deps": [prev, "aux"] if r.random() < 0.5 else ["aux", prev]}
+                kind = "merge2"
+            else:
+                two_inputs = False
+        if kind != "merge2":
+            n = {"name": f"n{i}", "kind": kind, "dep": prev}
+            n.update({"a": r.choice([1, 2, 3]), "b": i} if kind == "rowmap" else {"m": 3, "r": r.randrange(3)})
         n["opts"] = {"save_when": "ALWAYS", "rechunk_on_save": r.random() < 0.6,
                      "target_mb": r.choice([200, 2 * 24 / 1e6, 5 * 24 / 1e6]), "allow_superrun": i >= level}
         nodes.append(n)
@@ -68,10 +88,36 @@ def gen(seed, tier):
     cfg = {"processor": r.choice(["threaded_mailbox", "single_thread"]), "max_workers": 1,
            "allow_lazy": r.random() < 0.5, "allow_rechunk": r.random() < 0.8, "max_messages": r.randint(1, 4),
            "write_superruns": r.random() < 0.6}
+
+    def with_ranges(ids, p):
+        """[[run id, None | [t0, t1]] ...]: a subrun may be included through a time range between two of its
+        chunk boundaries (no row straddles those)."""
+        out = []
+        for rid in ids:
+            b = runs[rid]["bounds"]
+            rng = None
+            if r.random() < p and len(b) >= 2:
+                i0 = r.randrange(len(b) - 1)
+                i1 = r.randrange(i0 + 1, len(b))
+                if (b[i0], b[i1]) != (b[0], b[-1]):
+                    rng = [b[i0], b[i1]]
+            out.append([rid, rng])
+        return out
+
+    defn = with_ranges(names, 0.12)
     redefine = None
-    if n_runs >= 2 and r.random() < 0.5:
-        k = r.randint(1, n_runs - 1)
-        redefine = sorted(r.sample(list(runs), k))
+    if r.random() < 0.5:
+        if n_runs >= 2 and r.random() < 0.7:
+            k = r.randint(1, n_runs - 1)
+            keep = sorted(r.sample(range(n_runs), k))
+            redefine = [[names[i], None] for i in keep]
+        else:
+            # the same runs, another time range for at least one of them
+            for _ in range(6):
+                cand = with_ranges(names, 0.6)
+                if cand != defn:
+                    redefine = cand
+                    break
     # who redefines: the context that made the data, or another one on the same storage (the first one has
     # looked up the superrun's keys before and is used again afterwards)
     redefine_via = r.choice(["other", "other", "same"])
@@ -80,8 +126,8 @@ def gen(seed, tier):
     for _ in range(r.choice([0, 1, 2])):
         k = r.randrange(n_runs)
         ranges.append([k, r.randrange(k, n_runs)])
-    return {"spec": spec, "target": prev, "cfg": cfg, "stored": {}, "runs": sorted(runs), "redefine": redefine,
-            "redefine_via": redefine_via, "ranges": ranges,
+    return {"spec": spec, "target": prev, "cfg": cfg, "stored": {}, "runs": list(names), "defn": defn,
+            "redefine": redefine, "redefine_via": redefine_via, "ranges": ranges,
             "fs_order": r.choice([0, 1]), "est_steps": 800}
 
 
@@ -107,15 +153,30 @@ def spec_for_run(spec, rid):
     return dict(spec, nodes=nodes, run_id=rid)
 
 
-def concat_oracle(spec, rids, target):
-    parts = [P.oracle(spec_for_run(spec, rid))[target] for rid in rids]
+def defn_of(w):
+    return w["defn"] if "defn" in w else [[rid, None] for rid in w["runs"]]
+
+
+def to_spec(defn):
+    return {rid: ("all" if rng is None else [int(rng[0]), int(rng[1])]) for rid, rng in defn}
+
+
+def concat_oracle(spec, defn, target):
+    parts = []
+    for rid, rng in defn:
+        rows = P.oracle(spec_for_run(spec, rid))[target]
+        if rng is not None:
+            rows = rows[(rows["time"] >= rng[0]) & (rows["endtime"] <= rng[1])]
+        parts.append(rows)
     return np.concatenate(parts) if parts else None
 
 
-def check_subruns(chunks, spec, rids):
-    """chunk.subruns bookkeeping against the true spans of the subruns."""
+def check_subruns(chunks, spec, defn):
+    """chunk.subruns bookkeeping against the true spans of the subruns (or of the time range taken from them)."""
     src = spec["nodes"][0]
-    span = {rid: (src["runs"][rid]["bounds"][0], src["runs"][rid]["bounds"][-1]) for rid in rids}
+    rids = [rid for rid, _ in defn]
+    span = {rid: ((src["runs"][rid]["bounds"][0], src["runs"][rid]["bounds"][-1]) if rng is None
+                  else (rng[0], rng[1])) for rid, rng in defn}
     seen = {rid: [] for rid in rids}
     for i, (a, b, data, sub) in enumerate(chunks):
         if not sub:
@@ -152,6 +213,9 @@ def execute(w, seed, strategy="random", forced=None, strict=False):
     pr = PipelineRun(w, seed, strategy=strategy, forced=forced, strict=strict)
     pr.run_id = SUP
     spec, target, rids = w["spec"], w["target"], w["runs"]
+    defn = defn_of(w)
+    span = {rid: ((spec["nodes"][0]["runs"][rid]["bounds"][0], spec["nodes"][0]["runs"][rid]["bounds"][-1])
+                  if rng is None else tuple(rng)) for rid, rng in defn}
     res = {}
 
     def mk_ctx(extra=None):
@@ -166,7 +230,7 @@ def execute(w, seed, strategy="random", forced=None, strict=False):
             sf.write_run_metadata(rid, {"name": rid, "start": base + datetime.timedelta(seconds=100 * i),
                                         "end": base + datetime.timedelta(seconds=100 * i + 50),
                                         "mode": "m", "source": "s"})
-        ctx.define_run(SUP, list(rids))
+        ctx.define_run(SUP, list(rids) if all(rng is None for _, rng in defn) else to_spec(defn))
         pr.install_invariants()
         res["chunks"] = pr.get_chunks(ctx, target)
         res["alive"] = [t.name for t in pr.R.sim.live_threads()]
@@ -175,14 +239,15 @@ def execute(w, seed, strategy="random", forced=None, strict=False):
         res["reload_chunks"] = pr.get_chunks(fresh, target)
         res["range_reads"] = []
         if res["stored_super"]:
-            src = spec["nodes"][0]["runs"]
             for k, m in w.get("ranges", []):
-                t0, t1 = src[rids[k]]["bounds"][0], src[rids[m]]["bounds"][-1]
+                t0, t1 = span[rids[k]][0], span[rids[m]][1]
                 res["range_reads"].append((k, m, pr.get_chunks(fresh, target, time_range=(t0, t1))))
         if w["redefine"]:
             other = mk_ctx()
             definer = ctx if w.get("redefine_via", "other") == "same" else other
-            definer.define_run(SUP, list(w["redefine"]))
+            new = w["redefine"]
+            new = [[x, None] for x in new] if new and isinstance(new[0], str) else new
+            definer.define_run(SUP, [x for x, _ in new] if all(g is None for _, g in new) else to_spec(new))
             users = {"the context that made the data": ctx, "a context that read the data": fresh,
                      "a new context": other}
             res["stored_after_redefine"] = {name: c.is_stored(SUP, target) for name, c in users.items()}
@@ -199,14 +264,14 @@ def execute(w, seed, strategy="random", forced=None, strict=False):
             stage = "redefine" if "reload_chunks" in res else ("reload" if "chunks" in res else "get_iter")
             vio = Violation("EXC", f"{stage}: {sig_of_exception(out[1])}", repr(out[1])[:800])
         else:
-            exp = concat_oracle(spec, rids, target)
+            exp = concat_oracle(spec, defn, target)
             chunks = res["chunks"]
             got = np.concatenate([c[2] for c in chunks]) if chunks else exp[:0]
             if not P.rows_equal(got, exp):
                 vio = Violation("WRONG_ROWS", "superrun rows differ from the ordered concatenation of its subruns",
                                 P.describe_diff(got, exp))
             if vio is None:
-                vio = check_subruns(chunks, spec, rids)
+                vio = check_subruns(chunks, spec, defn)
             if vio is None:
                 rl = res["reload_chunks"]
                 got = np.concatenate([c[2] for c in rl]) if rl else exp[:0]
@@ -214,13 +279,13 @@ def execute(w, seed, strategy="random", forced=None, strict=False):
                     vio = Violation("WRONG_ROWS", "re-read superrun differs from the concatenation of its subruns "
                                                   f"(stored={res['stored_super']})", P.describe_diff(got, exp))
                 else:
-                    vio = check_subruns(rl, spec, rids)
+                    vio = check_subruns(rl, spec, defn)
                     if vio is not None:
                         vio = Violation(vio.cls, f"re-read (stored={res['stored_super']}): {vio.signature}", vio.detail)
             for k, m, chunks in res["range_reads"]:
                 if vio is not None:
                     break
-                part = rids[k:m + 1]
+                part = defn[k:m + 1]
                 want = concat_oracle(spec, part, target)
                 got = np.concatenate([c[2] for c in chunks]) if chunks else want[:0]
                 if not P.rows_equal(got, want):
@@ -237,7 +302,9 @@ def execute(w, seed, strategy="random", forced=None, strict=False):
             if vio is None and not w["cfg"]["write_superruns"] and res["stored_super"]:
                 vio = Violation("STORED", "write_superruns is off but superrun data was stored", "")
             if vio is None and w["redefine"]:
-                exp2 = concat_oracle(spec, w["redefine"], target)
+                new = w["redefine"]
+                new = [[x, None] for x in new] if new and isinstance(new[0], str) else new
+                exp2 = concat_oracle(spec, new, target)
                 via = w.get("redefine_via", "other")
                 for name, st in res["stored_after_redefine"].items():
                     if st and vio is None:
@@ -253,11 +320,16 @@ def execute(w, seed, strategy="random", forced=None, strict=False):
     r = base_result(pr, w, vio, inconclusive, strategy=strategy,
                     extra_probes={f"n_subruns_{len(rids)}": 1, "write_superruns": int(w["cfg"]["write_superruns"]),
                                   "redefinitions": int(bool(w["redefine"])),
+                                  "subruns_by_time_range": sum(1 for _, g in defn if g is not None),
+                                  "redefined_same_runs_other_range": int(bool(w["redefine"]) and not isinstance(
+                                      w["redefine"][0], str) and [x for x, _ in w["redefine"]] == rids),
+                                  "run_ids_not_in_lexical_order": int(list(rids) != sorted(rids)),
+                                  "two_input_superrun_level": int(any(n["kind"] == "merge2" for n in spec["nodes"])),
                                   "chunks_spanning_subruns": sum(1 for c in res.get("chunks", []) if c[3] and len(c[3]) > 1),
                                   "single_thread_runs": int(w["cfg"]["processor"] == "single_thread")})
     r["sample"] = {"runs": {rid: w["spec"]["nodes"][0]["runs"][rid]["bounds"] for rid in rids},
                    "n_rows": {rid: len(w["spec"]["nodes"][0]["runs"][rid]["rows"]) for rid in rids},
-                   "target": target, "cfg": w["cfg"], "redefine": w["redefine"],
+                   "target": target, "cfg": w["cfg"], "redefine": w["redefine"], "defn": defn,
                    "nodes": [{k: v for k, v in n.items() if k not in ("rows", "runs")} for n in spec["nodes"]],
                    "out_chunks": [(c[0], c[1], len(c[2]), c[3]) for c in res.get("chunks", [])][:6]}
     return r
